@@ -1,5 +1,6 @@
 """C13: assembler symbol discipline and incremental assembly."""
 import json
+import random
 
 import gtirb
 
@@ -55,6 +56,15 @@ def gen_case(rng, tier, index):
         c["allow_undef"] = rng.random() < 0.5
         # sprinkle references to unknown names
         names = ["nope0", "nope1", "nope0"]
+        r3 = random.Random(f"undef-temp:{index}:{len(c['lines'])}")
+        if c["isa"] != "mips32" and r3.random() < 0.35:
+            # an unknown name that is assembler-private, named by several
+            # operands, with or without a temporary-label suffix in effect
+            tn = ("L" if (c["isa"], c["fmt"]) == ("ia32", "pe")
+                  else ".L") + "nope9"
+            names = [tn, tn, "nope0"]
+            if r3.random() < 0.6:
+                c["suffix"] = r3.choice(["_7", "_12"])
         v = vocab.VOCAB[c["isa"]]
         for _ in range(rng.randrange(1, 4)):
             k = rng.choice([k for k in ("call", "jmp", "lea_sym")
@@ -121,6 +131,7 @@ def assemble(c, chunks):
                          payload=msyms["msym_code"].referent)
         m.symbols.add(s)
         msyms[c["temp_name"]] = s
+    if c.get("suffix"):
         kw["temp_symbol_suffix"] = c["suffix"]
     asm = Assembler(m, trivially_unreachable=c["unreachable"],
                     implicit_cfi_procedure=c["implicit_cfi"],
@@ -194,7 +205,7 @@ def run_undef(c):
     viol, ctr = [], {"undef_cases": 1}
     text = c12.render(c)
     unknown = sorted({ln["t"] for ln in c["lines"]
-                      if ln.get("t", "").startswith("nope")})
+                      if "nope" in ln.get("t", "")})
     attr = c.get("attr_undef")
     if attr:
         d = f"{attr[0]} {attr[1]}" + (", @function" if attr[0] == ".type"
@@ -228,7 +239,8 @@ def run_undef(c):
                          "msg": str(exc)})
         else:
             for name in unknown + ["undef0", "undef1"]:
-                ss = [s for s in result.symbols if s.name == name]
+                ss = [s for s in result.symbols
+                      if s.name in (name, name + c.get("suffix", ""))]
                 used = any(ln.get("t") == name for ln in c["lines"]) or (
                     attr is not None and attr[1] == name)
                 if not used:
@@ -242,10 +254,20 @@ def run_undef(c):
                         r not in result.proxies:
                     viol.append({"key": "undef:symbol-not-proxy-backed",
                                  "msg": name})
-            # module names still bind to the module's objects
+            # module names still bind to the module's objects, every other
+            # operand symbol is one the result hands over
+            handed = {id(s) for s in result.symbols}
             for sect in result.sections.values():
                 for e in sect.symbolic_expressions.values():
                     for s in e.symbols:
+                        ctr["operand_symbols_checked"] = ctr.get(
+                            "operand_symbols_checked", 0) + 1
+                        if s.name not in msyms and id(s) not in handed \
+                                and s.module is not m:
+                            viol.append({
+                                "key": "undef:operand-symbol-not-among-"
+                                       "the-result's-symbols",
+                                "msg": s.name})
                         if s.name in msyms and s is not msyms[s.name]:
                             viol.append({
                                 "key": "undef:module-name-rebound",
